@@ -112,3 +112,12 @@ Theorem C18_shape_skips_diacritics : forall pre x ds1 c0 ds2 y rest,
   if uc_r2l (Z.of_N c0) then ShOut (uc_cput (Z.to_N (uc_cshape (Z.of_N c0) (Z.of_N x) (Z.of_N y)))) else ShNone.
 Proof. exact uc_shape_neighbours. Qed.
 Print Assumptions C18_shape_skips_diacritics.
+
+(* the hypotheses are satisfiable and the functions compute: the matcher that never matches is
+   cm_ok; "a سلام b" with the right-to-left mark (row 1 of dirmarks) matching bytes 2..10 *)
+Example C18_nonvacuous :
+  cm_ok (fun _ _ _ => None) 8 /\
+  dir_reorder [97; 32; 216; 179; 217; 132; 216; 167; 217; 133; 32; 98]%N 0%Z (-2)%Z
+    (fun b _ _ _ => if (b =? 0)%nat then Some (1%nat, [2; 10; -1; -1]%Z) else None) (seq 0 8)
+  = Some [0; 1; 5; 4; 3; 2; 6; 7]%nat.
+Proof. split; [intros b e d m _ _ H; discriminate | vm_compute; reflexivity]. Qed.
